@@ -3,6 +3,7 @@
   Property theorems only; helper lemmas live in Lmd/Lemmas.
 -/
 import Lmd.Query
+import Lmd.Lemmas.Select
 
 namespace Lmd.C01
 
@@ -22,12 +23,14 @@ mutual
       have ha := allF_eq q hq v fs
       have ho := anyF_eq q hq v fs
       cases neg <;> cases n <;> cases isAnd <;> simp [ha, ho]
+  /-- the conjunction loop of `MatchFilter` under an inherited negation: De Morgan form of the Boolean meaning -/
   theorem allF_eq (q : Quirks) (hq : q.negOr = false) (v : View) :
       ∀ (fs : List Filter) (neg : Bool), allF q v neg fs = (if neg then !semAny q v fs else semAll q v fs)
     | [], neg => by cases neg <;> simp [allF, semAll, semAny]
     | f :: fs, neg => by
       simp only [allF, semAll, semAny, matchF_eq_sem q hq v f neg, allF_eq q hq v fs neg]
       cases neg <;> cases sem q v f <;> simp
+  /-- the disjunction loop of `MatchFilter` under an inherited negation: De Morgan form of the Boolean meaning -/
   theorem anyF_eq (q : Quirks) (hq : q.negOr = false) (v : View) :
       ∀ (fs : List Filter) (neg : Bool), anyF q v neg fs = (if neg then !semAll q v fs else semAny q v fs)
     | [], neg => by cases neg <;> simp [anyF, semAll, semAny]
@@ -35,5 +38,98 @@ mutual
       simp only [anyF, semAll, semAny, matchF_eq_sem q hq v f neg, anyF_eq q hq v fs neg]
       cases neg <;> cases sem q v f <;> simp
 end
+
+/-- Without the negation defect the request's filter list evaluated the way the code does it (negation
+    pushed down the tree) is exactly the conjunction of the Boolean meanings of its filters. -/
+theorem matchAll_eq_semList (q : Quirks) (hq : q.negOr = false) (v : View) (fs : List Filter) :
+    matchAll q v fs = semList q v fs := by
+  unfold matchAll semList
+  congr 1
+  funext f
+  rw [matchF_eq_sem q hq v f false]
+  cases sem q v f <;> rfl
+
+/-- non-vacuity: `Quirks.current` has the negation defect repaired -/
+example : Quirks.current.negOr = false := rfl
+
+/-- a row on which every column reads as the empty string / nothing -/
+def cexView : View := { get := fun _ => .s "", flags := 0 }
+/-- `state != <empty>` on an integer column: always true -/
+def cexLeaf : Leaf := { col := { name := "state", dtype := .int, storage := .loc }, op := .ne, isEmpty := true }
+/-- `Negate:` applied to an `And:` group whose only member is itself negated -/
+def cexFilter : Filter := .grp true [.leaf cexLeaf true] true
+
+/-- The defect that was repaired: with negation OR-ed down the tree (`negOr = true`) a negated filter
+    inside a negated group is evaluated wrongly - the code says "no match" where the Boolean meaning
+    (not (not true)) is "match". -/
+theorem nested_negate_counterexample :
+    ∃ (q : Quirks) (v : View) (f : Filter), q.negOr = true ∧ matchF q v false f = false ∧ sem q v f = true := by
+  refine ⟨{ Quirks.current with negOr := true }, cexView, cexFilter, rfl, ?_, ?_⟩
+  · simp [cexFilter, matchF, anyF, combineNeg, matchLeaf, matchLeafCore, cexLeaf, matchEmptyFilter]
+  · simp [cexFilter, sem, semAll, matchLeaf, matchLeafCore, cexLeaf, matchEmptyFilter]
+
+/-- the same tree is evaluated correctly by the code of today -/
+example : matchF Quirks.current cexView false cexFilter = sem Quirks.current cexView cexFilter :=
+  matchF_eq_sem Quirks.current rfl cexView cexFilter false
+
+/-- The per-backend row loop without index pre-selection and without the early cut returns exactly the
+    rows of the store that satisfy the Boolean meaning of the filter and pass authorisation: none is
+    omitted, no other row is returned, the order is the store order, and the reported total is their
+    number.  Holds whether or not negation is pushed down the tree. -/
+theorem gatherRows_scan_eq_filter (m : EvalMode) (cx : Ctx) (t : Table) (req : Request)
+    (hi : m.useIndex = false) (hc : m.earlyCut = false) (hq : m.q.negOr = false) :
+    (gatherRows m cx t req).hits.map (·.r) =
+        (tableRows cx t).filter (fun r => semList m.q (mkView cx t r) req.filter && checkAuth cx t req.authUser r)
+    ∧ (gatherRows m cx t req).total =
+        ((tableRows cx t).filter (fun r => semList m.q (mkView cx t r) req.filter && checkAuth cx t req.authUser r)).length := by
+  have hrm : ∀ v fs, rowMatches m v fs = semList m.q v fs := by
+    intro v fs
+    unfold rowMatches
+    split
+    · exact matchAll_eq_semList m.q hq v fs
+    · rfl
+  simp only [gatherRows, hi, hc, hrm, Bool.false_eq_true, if_false, List.map_map, List.length_map]
+  constructor
+  · have : ((fun (x : Hit) => x.r) ∘ fun r => ({ b := cx.b, r := r, keys := req.sort.map (sortKeyOf (mkView cx t r)) } : Hit)) = id := by
+      funext r; rfl
+    rw [this, List.map_id]
+  · trivial
+
+/-- non-vacuity: the specification mode is such a mode -/
+example : EvalMode.spec.useIndex = false ∧ EvalMode.spec.earlyCut = false ∧ EvalMode.spec.q.negOr = false :=
+  ⟨rfl, rfl, rfl⟩
+
+/-- non-vacuity: on the demo dataset `Filter: name = a` selects one of the two host rows -/
+example : (gatherRows EvalMode.spec Lemmas.Demo.cx Lemmas.Demo.hosts
+    { table := "hosts", filter := [.leaf (Lemmas.Demo.nameLeaf .eq "a") false] }).total = 1 := by
+  decide
+
+/-- Every row the per-backend loop returns - in any mode, with index pre-selection and early cut - is a
+    row of the store, unaltered, and is labelled with the backend it was read from. -/
+theorem hit_values_unchanged (m : EvalMode) (cx : Ctx) (t : Table) (req : Request) :
+    ∀ h ∈ (gatherRows m cx t req).hits, h.r ∈ tableRows cx t ∧ h.b = cx.b := by
+  intro h hh
+  have hc : ∀ r ∈ (if m.useIndex then preFiltered cx t (tableRows cx t) req.filter else tableRows cx t),
+      r ∈ tableRows cx t := by
+    intro r hr
+    split at hr
+    · exact Lemmas.preFiltered_subset cx t _ _ r hr
+    · exact hr
+  have key : ∀ (l : List Row) (p : Row → Bool), (∀ r ∈ l, r ∈ tableRows cx t) →
+      ∀ h ∈ (l.filter p).map (fun r => ({ b := cx.b, r := r, keys := req.sort.map (sortKeyOf (mkView cx t r)) } : Hit)),
+        h.r ∈ tableRows cx t ∧ h.b = cx.b := by
+    intro l p hl h hh
+    simp only [List.mem_map, List.mem_filter] at hh
+    obtain ⟨r, ⟨hr, _⟩, rfl⟩ := hh
+    exact ⟨hl r hr, rfl⟩
+  unfold gatherRows at hh
+  simp only at hh
+  split at hh
+  · exact key _ _ hc h hh
+  · exact key _ _ hc h (List.mem_of_mem_take hh)
+
+/-- non-vacuity: the loop of the code of today does return rows on the demo dataset -/
+example : (gatherRows (EvalMode.code Quirks.current) Lemmas.Demo.cx Lemmas.Demo.hosts { table := "hosts" }).hits.length = 2 := by
+  decide
 
 end Lmd.C01
